@@ -29,6 +29,9 @@ ASSUMPTIONS = ["total=_DEFAULT_TIMEOUT sentinel is outside the property's domain
 EXHAUSTIVE = {"quick": False, "thorough": True}
 
 
+BADS = ("bad", "numstr", "numbytes", "numspace", "list")          # non-numbers, among them strings and bytes that float() would parse
+
+
 def enc_q(fr):
     fr = Fraction(fr)
     return [Z(fr.numerator), fr.denominator]
@@ -41,7 +44,7 @@ def enc_raw(x):
         return [1]
     if x is True or x is False:
         return [2]
-    if x == "bad":
+    if x in BADS:
         return [4]
     return [3, enc_q(x)]
 
@@ -76,8 +79,8 @@ def pyval(x):
         return _DEFAULT_TIMEOUT
     if x is None or x is True or x is False:
         return x
-    if x == "bad":
-        return "not-a-number"
+    if x in BADS:
+        return {"bad": "not-a-number", "numstr": "2", "numbytes": b"2", "numspace": " 0.5 ", "list": [2]}[x]
     fr = Fraction(x)
     return int(fr) if fr.denominator == 1 else float(fr)
 
@@ -236,7 +239,7 @@ def num(x):
 def valid(x):
     if x in ("unset", None):
         return True
-    if x is True or x is False or x == "bad":
+    if x is True or x is False or x in BADS:
         return False
     return Fraction(x) > 0
 
@@ -332,7 +335,7 @@ def histogram(cases, obss):
 
 VALS = ["unset", None, "1/2", "2", "10"]
 DUR = ["0", "5/16", "1", "5", "20"]
-INVALID = ["0", "-1", True, "bad", "-1/2"]
+INVALID = ["0", "-1", True, "bad", "-1/2", "numstr", "numbytes", "numspace", "list"]
 
 
 def cases(rng, tier):
